@@ -54,7 +54,8 @@ def parse(op):
     a = op.split(" ")
     return dict(idx=int(a[1]), sub=int(a[2]), payload=parse_data(a[3]),
                 size=None if a[4] == "-" else int(a[4]), crcreq=a[5] == "1", srvcrc=a[6] == "1",
-                blks=unnl(a[7]), loss=set(unnl(a[8])), buf=int(a[9]))
+                blks=unnl(a[7]), loss=set(unnl(a[8])), buf=int(a[9].split("c")[0]),
+                chunk=int(a[9].split("c")[1]) if "c" in a[9] else None)
 
 
 def run_bdl(p):
@@ -69,6 +70,10 @@ def run_bdl(p):
                 pos = 0
                 while pos < len(payload):
                     pos += fp.write(payload[pos:])
+            elif p.get("chunk"):
+                # the caller hands the payload over in pieces; BufferedWriter flushes wherever its buffer fills up
+                for i in range(0, len(payload), p["chunk"]):
+                    fp.write(payload[i:i + p["chunk"]])
             else:
                 fp.write(payload)
         res = "ok"
@@ -253,6 +258,14 @@ def gen_ops(tier, rng):
     for n in range(1, 65):
         yield mk(n, [3], data=f"z{n}", crc=(1, 1))
         yield mk(n, [127], data=f"f{n}", crc=(1, 1))
+    # the payload handed over in several write() calls through the default-size buffer: the buffered writer
+    # flushes at positions that are not multiples of 7 and keeps the remainder (lengths beyond one buffer)
+    for n, k in ((1200, 600), (1400, 700), (2100, 1000), (1025, 1), (3000, 5), (2049, 1024), (1100, 333)) + \
+            (() if not thorough else ((5000, 7), (5000, 999), (10000, 1023), (4096, 64))):
+        for blks in ([127], rblks()):
+            yield mk(n, blks, buf=f"1024c{k}")
+    for n, bs, k in ((30, 8, 10), (64, 7, 9), (100, 2, 3), (29, 13, 1), (50, 8, 8), (15, 3, 20)):
+        yield mk(n, rblks(), buf=f"{bs}c{k}")
     # every multiple of 7 +-1: up to 64*7 in the quick tier, up to 10^4 in the thorough tier
     for k in range(9, 65 if not thorough else 1430):
         for d in (-1, 0, 1):
